@@ -221,9 +221,37 @@ pub fn c02_worker(ctx: &mut Ctx) {
 // C04
 
 pub fn c04_check(case: &Case, op: Op, f32_run: bool, st: &mut ProvStats) -> Result<(), (String, String)> {
-    let r = run_any(&case.a, &case.b, op, f32_run, Pairing::MM).map_err(|f| (format!("failure:{}", f.symptom()), format!("{:?}", f)))?;
+    // hook H5: the points at which segments were actually divided during this call
+    geo_booleanop::verif::division_log_enable(true);
+    let res = run_any(&case.a, &case.b, op, f32_run, Pairing::MM);
+    let divisions = geo_booleanop::verif::take_division_log();
+    geo_booleanop::verif::division_log_enable(false);
+    let r = res.map_err(|f| (format!("failure:{}", f.symptom()), format!("{:?}", f)))?;
     let assembled = !bboxes_disjoint(&case.a, &case.b);
-    check_provenance(case, &r, case.tol(f32_run), assembled, st).map_err(|m| ("provenance".to_string(), format!("{}: {}", op.name(), m)))
+    check_provenance(case, &r, case.tol(f32_run), assembled, st).map_err(|m| ("provenance".to_string(), format!("{}: {}", op.name(), m)))?;
+    // every result vertex is bit-identical to an input vertex or to a point at which a segment was divided
+    let mut known: std::collections::HashSet<(u64, u64)> = std::collections::HashSet::new();
+    for q in rings(&case.a).chain(rings(&case.b)).flatten() {
+        known.insert((q.0.to_bits(), q.1.to_bits()));
+        known.insert(((q.0 + 0.0).to_bits(), (q.1 + 0.0).to_bits()));
+    }
+    for d in &divisions {
+        known.insert((d.used.0.to_bits(), d.used.1.to_bits()));
+        // a division must cut strictly inside the segment it divides, at a point inside its bounding box
+        let (l, rr, u) = (d.left, d.right, d.used);
+        let inside = u.0 >= l.0.min(rr.0) && u.0 <= l.0.max(rr.0) && u.1 >= l.1.min(rr.1) && u.1 <= l.1.max(rr.1);
+        let bumped = d.used != d.requested;
+        if (!inside && !bumped) || u == l || u == rr {
+            return Err(("provenance".into(), format!("{}: segment {:?}-{:?} was divided at {:?}, which is not strictly inside it", op.name(), l, rr, u)));
+        }
+    }
+    st.divisions_logged += divisions.len();
+    for v in rings(&r).flatten() {
+        if !known.contains(&(v.0.to_bits(), v.1.to_bits())) {
+            return Err(("provenance".into(), format!("{}: result vertex {:?} is neither an input vertex nor one of the {} points at which segments were divided", op.name(), v, divisions.len())));
+        }
+    }
+    Ok(())
 }
 
 pub fn c04_worker(ctx: &mut Ctx) {
@@ -260,7 +288,7 @@ pub fn c04_worker(ctx: &mut Ctx) {
     ctx.monitor.insert(
         "provenance_monitor".into(),
         json!({"result_edges_checked": st.edges_checked, "vertices_bit_identical_to_input": st.vertices_identical, "vertices_at_intersections": st.vertices_intersection,
-            "vertices_exactly_at_rational_intersection": st.exact_vertices, "rings_checked": st.rings_checked}),
+            "vertices_exactly_at_rational_intersection": st.exact_vertices, "rings_checked": st.rings_checked, "divisions_logged_by_hook": st.divisions_logged}),
     );
     ctx.monitor.insert("hook_hits".into(), json!(hits_map()));
 }
